@@ -58,6 +58,37 @@ def impl_iter_shared_list(dag):
     return [ops.index(o) for o in p.values], [sorted(ops.index(q) for q in o.parents) for o in ops]
 
 
+def impl_iter_overlapping(dag):
+    """two iterations of the same DAG alive at once: the first is advanced k steps, a second one is started and run to its end, then the first is
+    finished; and two iterators advanced in lock-step (`zip`).  Each of them must still visit every operator exactly once, parents first"""
+    if REPO not in sys.path:
+        sys.path.insert(0, REPO)
+    from eudoxia.workload.pipeline import Pipeline
+    from eudoxia.utils import Priority
+    p = Pipeline("p", Priority.BATCH_PIPELINE)
+    ops = []
+    for par in dag:
+        ops.append(p.new_operator([ops[i] for i in par] if par else None))
+    outs = []
+    for k in sorted({0, 1, len(dag) // 2, max(len(dag) - 1, 0)}):
+        it1 = iter(p.values)
+        first = []
+        for _ in range(k):
+            try:
+                first.append(next(it1))
+            except StopIteration:
+                break
+        second = list(iter(p.values))
+        first.extend(it1)
+        outs.append(([ops.index(o) for o in first], [ops.index(o) for o in second]))
+    za, zb = [], []
+    for a, b in zip(p.values, p.values):
+        za.append(ops.index(a))
+        zb.append(ops.index(b))
+    outs.append((za, zb))
+    return outs
+
+
 def check_dags(ctx, dags, drv, exhaustive_upto=None):
     n_div = 0
     for dag in dags:
@@ -83,6 +114,11 @@ def check_dags(ctx, dags, drv, exhaustive_upto=None):
             ctx.violations.append({"what": f"iteration of the DAG {dag} depends on earlier iterations: fresh {order}, after iterating during construction {o1}, "
                                            f"again {o2}, prefixes {partial}", "layer": "W", "dag": dag, "sig": {"clause": "iteration-repeatable"}})
             return
+        for a, b in impl_iter_overlapping(dag):
+            if a != order or b != order:
+                ctx.violations.append({"what": f"two iterations of the DAG {dag} alive at the same time disturb each other: one yields {a}, the other {b} "
+                                               f"(an iteration alone: {order})", "layer": "W", "dag": dag, "sig": {"clause": "iteration-overlapping"}})
+                return
         o3, pars = impl_iter_shared_list(dag)
         if o3 != order or pars != [sorted(x) for x in dag]:
             ctx.violations.append({"what": f"the DAG {dag} built from a parents list that the caller re-uses afterwards iterates as {o3} (fresh lists: {order}) and "
